@@ -148,6 +148,22 @@ def _assigned_attrs(fn: FuncInfo) -> set[str]:
     return out
 
 
+MUTATORS = {"fit", "fit_transform", "add", "compute", "set_attrs", "append", "extend", "update"}
+
+
+def _mutated_attrs(fn: FuncInfo) -> set[str]:
+    """attributes whose object is (re)fitted or written in place: self.a.fit(...), self.a.add(...), self.a[k] = v"""
+    out = set()
+    for n in walk_no_nested(fn.node):
+        if isinstance(n, ast.Call) and isinstance(n.func, ast.Attribute) and n.func.attr in MUTATORS and is_self_attr(n.func.value):
+            out.add(n.func.value.attr)
+        elif isinstance(n, ast.Assign):
+            for t in n.targets:
+                if isinstance(t, ast.Subscript) and is_self_attr(t.value):
+                    out.add(t.value.attr)
+    return out
+
+
 def _read_attrs(fn: FuncInfo) -> dict[str, ast.AST]:
     out = {}
     for n in walk_no_nested(fn.node):
@@ -189,7 +205,7 @@ def _state(chk):
             for m in c.methods.values():
                 if m.name == "__init__" or cls.resolve(m.name) is not m:
                     continue
-                for a in _assigned_attrs(m):
+                for a in _assigned_attrs(m) | _mutated_attrs(m):
                     F.setdefault(a, m)
         # R: attributes read on post-fit paths
         R: dict[str, tuple[FuncInfo, ast.AST]] = {}
@@ -221,62 +237,96 @@ def _state(chk):
                facts={"fitted_attrs": sorted(F), "serialised": sorted(keys)}, nontrivial=bool(F))
 
 
+# Frozen grouping of the (de)serialisation protocols, one reason each: a marker read by a function of a
+# group must be written by another function of the same group.
+PROTOCOL_GROUPS = {
+    # model tree: BaseModel.serialize writes, _deserialize_attrs/deserialize read
+    "model": {"BaseModel.serialize", "BaseModel._deserialize_attrs", "BaseModel.deserialize"},
+    # transformer trees: Transformer._serialize/_serialize_data write, _deserialize/_deserialize_data_node read;
+    # Preprocessor.serialize/deserialize wrap them
+    "transformer": {
+        "Transformer._serialize", "Transformer._serialize_data", "Transformer._deserialize", "Transformer._deserialize_data_node",
+        "Transformer.serialize", "Transformer.deserialize", "Preprocessor.serialize", "Preprocessor.deserialize",
+    },
+    # data nodes: DataContainer.serialize writes; DataContainer.deserialize, insert_placeholders, BaseModel.compute and
+    # _validate_loaded_data read the per-node flags
+    "container": {
+        "DataContainer.serialize", "DataContainer.deserialize", "DataContainer.compute", "insert_placeholders", "BaseModel.compute",
+        "BaseModel._validate_loaded_data", "CPCCA._validate_loaded_data",
+    },
+}
+
+
+def _group_of(fn: FuncInfo) -> str | None:
+    label = f"{fn.cls.name}.{fn.name}" if fn.cls is not None else fn.name
+    for g, members in PROTOCOL_GROUPS.items():
+        if label in members:
+            return g
+    return None
+
+
 def _protocol(chk):
     pm = chk.pm
-    writers: dict[str, str] = {}
-    readers: list[tuple[FuncInfo, ast.AST, str]] = []
-    funcs = [f for f in pm.all_functions() if f.name in SERIAL_FUNCS]
+    funcs = [f for f in pm.all_functions() if f.name in SERIAL_FUNCS and f.parent is None]
     chk.require(len(funcs) >= 12, "serialisation functions vanished")
 
     def attrs_recv(e):  # x.attrs
         return isinstance(e, ast.Attribute) and e.attr == "attrs"
 
+    writes: dict[str, dict[str, set[str]]] = {g: {} for g in PROTOCOL_GROUPS}
+    reads: list[tuple[FuncInfo, ast.AST, str, str]] = []
     for fn in funcs:
+        g = _group_of(fn)
+        if g is None:
+            raise AnalysisError(
+                f"serialisation function {fn.qualname} is not classified in PROTOCOL_GROUPS; read it and extend the table"
+            )
+        w = writes[g]
+
+        def wr(lit):
+            if lit:
+                w.setdefault(lit, set()).add(fn.qualname)
+
         for n in walk_no_nested(fn.node):
-            # writers
             if isinstance(n, ast.Assign):
                 for t in n.targets:
                     if isinstance(t, ast.Subscript) and attrs_recv(t.value):
-                        k = const_str(t.slice)
-                        if k:
-                            writers[k] = fn.qualname
-                        v = const_str(n.value)
-                        if v:
-                            writers[v] = fn.qualname
+                        wr(const_str(t.slice))
+                        wr(const_str(n.value))
                     if attrs_recv(t) and isinstance(n.value, ast.Dict):
                         for k, v in zip(n.value.keys, n.value.values):
-                            if const_str(k):
-                                writers[const_str(k)] = fn.qualname
-                            if const_str(v):
-                                writers[const_str(v)] = fn.qualname
+                            wr(const_str(k))
+                            wr(const_str(v))
             if isinstance(n, ast.keyword) and n.arg == "attrs":
                 v = n.value
                 if isinstance(v, ast.Dict):
                     for k in v.keys:
-                        if const_str(k):
-                            writers[const_str(k)] = fn.qualname
+                        wr(const_str(k))
                 elif isinstance(v, ast.Call) and isinstance(v.func, ast.Name) and v.func.id == "dict":
                     for kw in v.keywords:
-                        if kw.arg:
-                            writers[kw.arg] = fn.qualname
-            # readers
+                        wr(kw.arg)
             if isinstance(n, ast.Compare) and len(n.ops) == 1 and isinstance(n.ops[0], (ast.Eq, ast.NotEq)):
                 for side in (n.left, n.comparators[0]):
-                    s = const_str(side)
-                    if s and (s.startswith("_is_") or s == "params"):
-                        readers.append((fn, n, s))
+                    sx = const_str(side)
+                    if sx and (sx.startswith("_is_") or sx == "params"):
+                        reads.append((fn, n, sx, g))
             if isinstance(n, ast.Subscript) and isinstance(n.ctx, ast.Load) and attrs_recv(n.value):
-                s = const_str(n.slice)
-                if s:
-                    readers.append((fn, n, s))
+                sx = const_str(n.slice)
+                if sx:
+                    reads.append((fn, n, sx, g))
             if isinstance(n, ast.Call) and isinstance(n.func, ast.Attribute) and n.func.attr == "get" and attrs_recv(n.func.value) and n.args:
-                s = const_str(n.args[0])
-                if s:
-                    readers.append((fn, n, s))
-    for fn, node, s in readers:
-        chk.check(s in writers, "SERIAL.protocol", fn, node,
-                  why=f"deserialisation reads the marker {s!r} which no serialiser writes",
-                  facts={"marker": s, "written_by": writers.get(s)})
+                sx = const_str(n.args[0])
+                if sx:
+                    reads.append((fn, n, sx, g))
+    readers_of: dict[tuple[str, str], set[str]] = {}
+    for fn, node, lit, g in reads:
+        readers_of.setdefault((g, lit), set()).add(fn.qualname)
+    for fn, node, lit, g in reads:
+        # genuine writers: functions of the group that write the marker without also reading it
+        ws = {q for q in writes[g].get(lit, set()) if q not in readers_of.get((g, lit), set())}
+        chk.check(bool(ws), "SERIAL.protocol", fn, node,
+                  why=f"deserialisation reads the marker {lit!r} which no serialiser of the '{g}' protocol writes",
+                  facts={"marker": lit, "group": g, "written_by": sorted(ws)})
 
 
 def _codec_sites(tree: ast.AST, fn_name_filter=None):
